@@ -21,6 +21,7 @@ type canon struct {
 	bc      [2]*blockchain.Blockchain  // legacy, new state backend
 	dbs     [2]*memory.Database
 	moves   string
+	forIndex bool // also used for PreConfirmedStateBeforeIndexAt reads
 }
 
 func (c *canon) height() uint64 { return uint64(len(c.entries) - 1) }
@@ -67,7 +68,7 @@ func buildCanons() ([]*canon, error) {
 		"sssssrr"} // two reverts: height 2
 	var out []*canon
 	for _, h := range hist {
-		c := &canon{name: h, moves: h}
+		c := &canon{name: h, moves: h, forIndex: h == "ssssss" || h == "sssssra"}
 		for nb := 0; nb < 2; nb++ {
 			d := memory.New()
 			bc := chain.NewNode(d, nb == 1)
